@@ -839,7 +839,7 @@ func raceReports() (raw int, distinct map[string]string) {
 func TestC11(t *testing.T) {
 	r := ev.Start(t, "C11", "exploration")
 	defer r.Finish()
-	r.Rule("short runs (quick: 6 A/B + 6 C; thorough: 60 + 30), each a fresh Store + real runtime.Runtime with 3 compiled programs (scalar and dimensioned counters, gauge written with unique values, histogram, text, float, limit + del-after) fed 1.5-4k lines while, concurrently, a tight Store.Gc loop, eight export loops (Prometheus Write, /json, /varz, /graphite, /varz and /graphite with a client that goes away at the k-th write, statsd and collectd push path) and — in sub-workload B — a reloader doing comment-only edits run under the race detector with GOMAXPROCS in {2,4,16} and PRNG jitter at the VM line hook. Oracles: race reports with mtail frames; counters equal the increments performed; per-path monotone counter samples <= final; gauge samples were written; histogram +Inf bucket == count; porcupine register/counter linearizability of one datum under 4 clients. Non-trivial: a run in which >=1 export and >=1 GC pass began while a VM line was executing; distinct by run index.")
+	r.Rule("short runs (quick: 6 A/B + 6 C; thorough: 30 + 16), each a fresh Store + real runtime.Runtime with 3 compiled programs (scalar and dimensioned counters, gauge written with unique values, histogram, text, float, limit + del-after) fed 1.5-4k lines while, concurrently, a tight Store.Gc loop, eight export loops (Prometheus Write, /json, /varz, /graphite, /varz and /graphite with a client that goes away at the k-th write, statsd and collectd push path) and — in sub-workload B — a reloader doing comment-only edits run under the race detector with GOMAXPROCS in {2,4,16} and PRNG jitter at the VM line hook. Oracles: race reports with mtail frames; counters equal the increments performed; per-path monotone counter samples <= final; gauge samples were written; histogram +Inf bucket == count; porcupine register/counter linearizability of one datum under 4 clients. Non-trivial: a run in which >=1 export and >=1 GC pass began while a VM line was executing; distinct by run index.")
 	r.Assume("the race detector only sees races on accesses this workload performs; a clean run is not race-freedom", "reloads are comment-only so declarations (and therefore data) are carried over")
 	lh := func(id uint64, name string, l *logline.LogLine, phase int) {
 		if phase == 0 {
@@ -869,7 +869,7 @@ func TestC11(t *testing.T) {
 	}
 	vm.VerifInstrHook.Store(&ih)
 	defer vm.VerifInstrHook.Store(nil)
-	runs := ev.Pick(6, 60)
+	runs := ev.Pick(6, 30)
 	rng := ev.NewRNG(ev.Seed(), "c11")
 	defer runtime.GOMAXPROCS(runtime.GOMAXPROCS(0))
 	totOver, totGcOver, totScr, totReload, totExp, totExpColl := 0, 0, 0, 0, 0, 0
@@ -906,7 +906,7 @@ func TestC11(t *testing.T) {
 	r.Count("expiry_keys_refreshed_and_checked", totExp)
 	r.Count("expiry_keys_collected_between_stale_and_fresh_write", totExpColl)
 	totC, inflightC := 0, 0
-	for run := 0; run < ev.Pick(6, 30) && r.Violations() == 0; run++ {
+	for run := 0; run < ev.Pick(6, 16) && r.Violations() == 0; run++ {
 		runtime.GOMAXPROCS([]int{2, 4, 16}[run%3])
 		var what string
 		var nre, nin int
@@ -924,7 +924,7 @@ func TestC11(t *testing.T) {
 	r.Count("workloadC_reloads_begun_with_a_line_in_flight", inflightC)
 	runtime.GOMAXPROCS(16)
 	forcedGcBetweenLookupAndWrite(t, r)
-	linearizability(r, rng.Sub(999999), ev.Pick(200, 3000))
+	linearizability(r, rng.Sub(999999), ev.Pick(200, 2000))
 	raw, distinct := raceReports()
 	r.Count("race_reports_raw", raw)
 	r.Count("race_reports_distinct", len(distinct))
